@@ -54,7 +54,8 @@ ABORT_TARGETS = ["from_parsed_data", "from_chart_line", "from_chart_lines", "bui
                  "timestamp_at_tick", "_index_of_proximal_event", "__post_init__", "complex_sustain",
                  "_compute_", "__init__", "_refined_", "note_duration", "seconds_from", "from_file",
                  "_parse_data", "parse_data_from", "is_chord", "is_5_note", "<genexpr>", "<lambda>"]
-SUB_BATCHES = ["none", "none", "io", "eio", "abort", "abort", "cache_clear", "long", "callerfault"]
+SUB_BATCHES = ["none", "none", "io", "eio", "abort", "abort", "cache_clear", "long", "callerfault",
+               "churn"]
 JUNK_LINES = ["free text", "", "{t} = N 8 0", "{t} = S 64 10", "{t} = E two words", "100% {t} %s",
               "{t} = Q 1 2"]
 
@@ -187,12 +188,17 @@ def make_plan(seed: int, tier: str, index: int) -> dict[str, Any]:
     if sub == "long":
         # long histories without retained results: object ids get reused, memo tables fill up
         n_clients = p.choice([1, 1, 2])
+    if sub == "churn":
+        # results are dropped while other threads are in the middle of a parse, under the
+        # write/shared-state biased schedule: whatever the library keeps about live charts
+        # (weak references, pools, registries) changes under the running parse
+        n_clients = p.choice([2, 2, 3])
     if big_run:
         n_clients = 1
     clients = []
     for ci in range(n_clients):
         ops = []
-        for _ in range(p.randint(1, 6) if sub != "long" else
+        for _ in range(p.randint(8, 16) if sub == "churn" else p.randint(1, 6) if sub != "long" else
                        (p.randint(20, 60) // n_clients if not big_run else p.randint(4, 8))):
             c = p.choice(corpus)
             op: dict[str, Any] = {"op": "parse", "text": c["id"], **access[c["id"]]}
@@ -308,6 +314,10 @@ def make_plan(seed: int, tier: str, index: int) -> dict[str, Any]:
         else:
             schedule = {"mode": "pct", "seed": s.getrandbits(32), "d": s.choice([1, 2, 3]),
                         "est_steps": max(200, total_ops * s.choice([500, 1500, 3000]))}
+    if sub == "churn":
+        knobs["retain_results"] = False
+        schedule = {"mode": "writes", "seed": s.getrandbits(32), "p": s.choice([0.3, 0.6, 0.9]),
+                    "hold": s.choice([1000, 4000, 8000])}
     if sub == "long":
         knobs["retain_results"] = False
         # allocator shifts between the parses of a long history: which freed address the next
@@ -315,7 +325,9 @@ def make_plan(seed: int, tier: str, index: int) -> dict[str, Any]:
         # heap state the run inherited
         for _ci, _k, op in all_ops:
             op["shift"] = p.choice([0, 1, 2, 3, 4, 5, 6, 8, 11, 16])
-    if schedule["mode"] != "sequential" and s.random() < 0.25:
+    if sub == "churn":
+        pass
+    elif schedule["mode"] != "sequential" and s.random() < 0.25:
         # write-biased schedule: switch right after heap writes, then let the other thread run long
         schedule = {"mode": "writes", "seed": s.getrandbits(32), "p": s.choice([0.1, 0.3, 0.6]),
                     "hold": s.choice([20, 200, 1000, 4000])}
@@ -354,7 +366,7 @@ def _reference(op: dict[str, Any], data: bytes) -> dict[str, Any]:
     from detsim import world
     from detsim.observe import outcome
 
-    world.install_log_sink()
+    world.reference_process_state()
     fs = simfs.SimFS(os.path.join(env.scratch(), "simfs", f"ref-{os.getpid()}"))
     fs.install()
     try:
@@ -468,7 +480,7 @@ def execute(plan: dict[str, Any]) -> dict[str, Any]:
     def config_name() -> str:
         return {"none": "history-only" if plan["schedule"].get("mode") == "sequential" else "scheduled",
                 "io": "io", "eio": "eio", "abort": "abort", "cache_clear": "cache-clear",
-                "long": "long-history", "callerfault": "caller-fault"}[sub]
+                "long": "long-history", "callerfault": "caller-fault", "churn": "churn"}[sub]
 
     def vio(symptom: str, detail: str) -> None:
         violations.append({"sig": f"C17/{symptom}/{config_name()}", "detail": detail})
